@@ -305,7 +305,7 @@ func checkCmd(opts *RunOpts, args []string) int {
 	witnessCache := map[string]bool{}
 	var unsatCore []string
 	cexCache := map[string]*Cex{}
-	var cov_order, cov_rel map[string]any
+	var cov_order, cov_rel, cov_neg map[string]any
 
 	for _, res := range run.Results {
 		if res.Trusted {
@@ -487,6 +487,15 @@ func checkCmd(opts *RunOpts, args []string) int {
 		}
 		cov_order = cv
 	}
+	if run.NegRan {
+		_, vl, cv := boundedListVerdict(opts, prop, known, "bounded.negotiation.partial_acceptance", "none.txt", run.NegFailing, run.NegTotal,
+			"trigger T and three states X1..X3 (all Auto, or all plain and added manually), every veto mask over their Enter / T->Xi state-state handlers, three state orders",
+			"", "end with the wrong active set or result (auto states are judged one by one; a manual mutation is all-or-nothing)", nil)
+		if vl != "" {
+			violations = append(violations, vl)
+		}
+		cov_neg = cv
+	}
 	if run.RelRan {
 		kl, vl, cv := boundedListVerdict(opts, prop, known, "bounded.resolver.relations", "c02_bounded_known.txt", run.RelFailing, run.RelTotal,
 			fmt.Sprintf("4-state schemas with at most %d relations (Add/Remove/Require, one target each), start sets {} and {X}, single-state Add/Remove/Set", run.RelBound),
@@ -545,6 +554,9 @@ func checkCmd(opts *RunOpts, args []string) int {
 	}
 	if cov_rel != nil {
 		cov["bounded_relations_standin"] = cov_rel
+	}
+	if cov_neg != nil {
+		cov["bounded_negotiation_standin"] = cov_neg
 	}
 	if len(run.Bounded) > 0 || run.SchemaCount > 0 {
 		cov["schemas_extracted"] = run.SchemaCount
